@@ -110,7 +110,8 @@ Proof. unfold eqp; cbn. tauto. Qed.
 
 Lemma eqp_unindex_rule s id rule : eqp s (unindex_rule s id rule).
 Proof.
-  unfold unindex_rule. destruct (rule_patterns rule); [apply eqp_set_pindex|apply eqp_refl].
+  unfold unindex_rule. destruct (is_scheduled rule); [apply eqp_refl|].
+  destruct (rule_patterns rule); [apply eqp_set_pindex|apply eqp_refl].
 Qed.
 
 Lemma eqp_index_rule s id rule : eqp s (fst (index_rule s id rule)).
